@@ -119,6 +119,8 @@ def _raise():
         raise ConnectionRefusedError(111, "injected: server down")
     if KIND == "timeout":
         raise _socket.timeout("injected: timed out")
+    if KIND == "unreachable":
+        raise OSError(113, "injected: no route to host")      # an OSError that is neither a ConnectionError nor a timeout
     raise Injected("injected: protocol error")
 
 
@@ -154,7 +156,7 @@ class HC(HashClient):
 
 
 def _expected_exc(e):
-    if isinstance(e, (ConnectionRefusedError, _socket.timeout, Injected)):
+    if isinstance(e, (ConnectionRefusedError, _socket.timeout, Injected)) or (type(e) is OSError and e.errno == 113):
         return True
     return type(e) is MemcacheError and "All servers" in str(e)
 
@@ -356,6 +358,10 @@ def shards(tier):
         out.append(dict(fn="h_failover", timeout=T, weight=3, shard=dict(ns=2, ra=ra, ignore_exc=False, kind="refused",
                                                                          depth=6 if ra == 2 else 5, first=3, dtmin=8, dtmax=9,
                                                                          dmax=2, alphabet=[0])))
+    # a plain OSError (EHOSTUNREACH): every OSError of the server counts as a failure of that server
+    for first in firsts2:
+        out.append(dict(fn="h_failover", timeout=T, shard=dict(ns=2, ra=1, ignore_exc=first == 3, kind="unreachable",
+                                                               depth=4 if thorough else 3, first=first, dtmax=3)))
     # socket.timeout (an OSError that is not a ConnectionError) with exceptions ignored
     for first in (3, 2):
         out.append(dict(fn="h_failover", timeout=T, shard=dict(ns=2, ra=1, ignore_exc=True, kind="timeout", depth=3,
@@ -393,7 +399,7 @@ BOUNDS = {
              "eviction, healing then traffic; 6 events `fail s0, get|set_many, heal s0, get|set_many, fail s0, get|set_many`) over {get on the key of server i, set_many over all keys, server i starts/stops "
              "failing} (symbolic; first event = shard), clock advance 0..7 (0..3 in the 5-event shards) before each event (symbolic), 1 <= retry_timeout < "
              "dead_timeout <= 3 (symbolic), recovery traffic every 1..3 time units (symbolic); retry_attempts {0,1,2} x "
-             "ignore_exc on/off with ConnectionRefusedError, plus socket.timeout and a non-OSError memcached error; the same with "
+             "ignore_exc on/off with ConnectionRefusedError, plus socket.timeout, a plain OSError (EHOSTUNREACH) and a non-OSError memcached error; the same with "
              "(server_key, key) pairs on 2 servers, and on 3 servers for `server 0 fails, then gets routed by the keys of "
              "servers 0 and 1` (4-5 events); every get must query placement with its routing key only and contact the "
              "server placement named",
